@@ -113,6 +113,43 @@ func genC06(r *simrt.Rand, idx int, tier string) ConcCase {
 		id++
 		c.Init = append(c.Init, Op{K: "set", Key: c.Keys[0], ID: id, Size: smallSize(r)})
 	}
+	if idx%60 == 30 {
+		// a database with more than a thousand keys (more than any batch size a listing might be cut
+		// into): two transactions each move a value from one key to another (Set the new key, Delete
+		// the old one, Commit) while two clients list the keys; every listing shows each pair in one
+		// of its two states, never both keys, never neither
+		c.Keys = nil
+		c.Init = nil
+		id = 0
+		n := 1030 + r.Intn(200)
+		for k := 0; k < n; k++ {
+			id++
+			c.Init = append(c.Init, Op{K: "set", Key: fmt.Sprintf("fill-%04d", k), ID: id, Size: 9})
+		}
+		for p := 0; p < 2; p++ {
+			a, b := fmt.Sprintf("pair-%d-a", p), fmt.Sprintf("pair-%d-b", p)
+			c.Keys = append(c.Keys, a, b)
+			id++
+			c.Init = append(c.Init, Op{K: "set", Key: a, ID: id, Size: 9 + r.Intn(30)})
+			id++
+			c.Clients = append(c.Clients, []Op{{K: "begin", Tx: p + 1, Level: 1}, {K: "set", Tx: p + 1, Key: b, ID: id, Size: 9 + r.Intn(30)},
+				{K: "del", Tx: p + 1, Key: a}, {K: "yield", N: r.Intn(30)}, {K: "commit", Tx: p + 1}})
+		}
+		for p := 0; p < 2; p++ {
+			c.Clients = append(c.Clients, []Op{{K: "keys"}, {K: "yield", N: r.Intn(20)}, {K: "keys"}})
+		}
+		c.Sched = genSched(r, 3000)
+		c.Sched.MaxSteps = 3_000_000
+		if r.Intn(2) == 0 {
+			// a lister that is slow whenever it (re-)takes a read lock
+			c.Sched.Strategy, c.Sched.Bias, c.Sched.TimerProb = "stretch", 0.9, 0
+			c.Sched.StallG = 3 + r.Intn(2)
+			c.Sched.StretchTag = []string{"RWMutex.RLock", "RWMutex.RUnlock"}[r.Intn(2)]
+			c.Sched.StretchFor = uint64(100 + r.Intn(400))
+			c.Sched.StretchTimes = 2 + r.Intn(6)
+		}
+		return c
+	}
 	if idx%13 == 11 {
 		// several clients list the keys again and again while a writer adds new keys (and removes
 		// one): a listing that STARTS after a Set was acknowledged contains that key, whoever else is
@@ -442,6 +479,23 @@ func checkC06(c ConcCase, cr *concRun, out *RunOut) *Violation {
 			shared[tx] = true
 		}
 	}
+	// transactions more than one client uses in the concurrent phase at all (one ends it, another
+	// still reads and writes through the handle): "transaction not found" is then a legitimate
+	// answer to any of their calls, and the order of the calls decides which ones get it
+	users := map[int]map[int]bool{}
+	for _, e := range cr.hist {
+		if e.Op.Tx > 0 && e.Client != 0 {
+			if users[e.Op.Tx] == nil {
+				users[e.Op.Tx] = map[int]bool{}
+			}
+			users[e.Op.Tx][e.Client] = true
+		}
+	}
+	for tx, cl := range users {
+		if len(cl) > 1 {
+			shared[tx] = true
+		}
+	}
 	for tx := range shared {
 		won := 0
 		for _, e := range cr.hist {
@@ -466,11 +520,17 @@ func checkC06(c ConcCase, cr *concRun, out *RunOut) *Violation {
 						Detail: fmt.Sprintf("client%d %s [%d..%d] failed with ErrNotFound (%s) although the key has had a value since event %d and is never deleted in this program", e.Client, e.Op, e.Call, e.Ret, e.Err, w)}
 				}
 			}
+			if e.Class == "ErrTxNotFound" && shared[e.Op.Tx] {
+				break
+			}
 			if e.Class != "" && e.Class != "ErrNotFound" {
 				return &Violation{Class: "error-class", Signature: "C06|error-class|" + e.Op.K + "|" + e.Class,
 					Detail: fmt.Sprintf("client%d %s [%d..%d] failed: %s", e.Client, e.Op, e.Call, e.Ret, e.Err)}
 			}
 		case "keys":
+			if e.Class == "ErrTxNotFound" && shared[e.Op.Tx] {
+				break
+			}
 			if e.Class != "" {
 				return &Violation{Class: "error-class", Signature: "C06|error-class|keys|" + e.Class,
 					Detail: fmt.Sprintf("client%d GetKeys [%d..%d] failed: %s", e.Client, e.Call, e.Ret, e.Err)}
@@ -488,7 +548,7 @@ func checkC06(c ConcCase, cr *concRun, out *RunOut) *Violation {
 				}
 			}
 		case "set", "setr", "create", "del", "begin", "commit", "rollback":
-			if e.Op.K == "commit" && e.Class == "ErrTxNotFound" && shared[e.Op.Tx] {
+			if e.Class == "ErrTxNotFound" && shared[e.Op.Tx] {
 				break // another client ended the transaction first
 			}
 			if e.Class != "" && !(e.Op.K == "commit" && e.Class == "ErrTxSerialization") {
